@@ -1,5 +1,6 @@
 //! nlmc — bounded-exhaustive model checking of the Nederlang interpreter (see /verif/DESIGN.md).
 
+mod astx;
 mod bcmc;
 mod common;
 mod gcprog;
